@@ -238,6 +238,24 @@ func (fc *fileCtx) isChan(e ast.Expr) bool {
 	return false
 }
 
+// chanDir returns 0 / 1 / 2 for a bidirectional / send-only / receive-only channel expression, -1 otherwise.
+func (fc *fileCtx) chanDir(e ast.Expr) int {
+	t := fc.info.TypeOf(origOf(ast.Unparen(e)))
+	if t == nil {
+		return -1
+	}
+	if ch, ok := t.Underlying().(*types.Chan); ok {
+		switch ch.Dir() {
+		case types.SendOnly:
+			return 1
+		case types.RecvOnly:
+			return 2
+		}
+		return 0
+	}
+	return -1
+}
+
 // coreType returns the single underlying type shared by all terms of a constraint interface, or nil.
 func coreType(i *types.Interface) types.Type {
 	var core types.Type
@@ -324,6 +342,10 @@ func (fc *fileCtx) rewrite() {
 		case *ast.CallExpr:
 			if fc.isBuiltin(n.Fun, "close") && len(n.Args) == 1 {
 				c.Replace(fc.mcCall("Close", n.Args[0]))
+			} else if fc.isBuiltin(n.Fun, "len") && len(n.Args) == 1 && fc.chanDir(n.Args[0]) >= 0 {
+				// the real channel never carries the values (the model does): len must ask the model
+				fc.stats["len"]++
+				c.Replace(fc.mcCall([]string{"Len", "LenS", "LenR"}[fc.chanDir(n.Args[0])], n.Args[0]))
 			} else if sel, ok := n.Fun.(*ast.SelectorExpr); ok {
 				if id, ok := sel.X.(*ast.Ident); ok {
 					if pn, ok := fc.info.Uses[id].(*types.PkgName); ok {
